@@ -35,6 +35,8 @@ CLAUSES = {
                                   ("returns-alias", "self", ""): INPL},
     (MPO, "Mpo.apply"): {}, (MPO, "Mpo.contract"): {}, (MPO, "Mpo.conj_trans"): {}, (MPO, "Mpo.__matmul__"): {}, (MPO, "Mpo.todense"): {},
     (MPDM, "MpDm.apply"): {}, (MPDM, "MpDm.evolve_exact"): {}, (MPDM, "MpDm.from_mps"): {}, (MPDM, "MpDm.conj_trans"): {},
+    # module-level helpers behind Mps.expand_bond_dimension / TTNS.expand_bond_dimension: `lastone = mps` aliases the input until the first product replaces it
+    (MPS, "expand_bond_dimension"): {}, (MPS, "expand_bond_dimension_general"): {},
     (LIB, "compressed_sum"): {}, (LIB, "_sum"): {("preserving-call", "mps_list", "canonicalise"): "R1"},
     (TREE, "TTNS.evolve"): {}, (TREE, "TTNS.add"): {}, (TREE, "TTNS.scale"): {("write", "self", "root.tensor"): INPL, ("inplace-call", "self", "to_complex"): INPL, ("returns-alias", "self", ""): INPL},
     (TREE, "TTNS.copy"): {}, (TREE, "TTNS.metacopy"): {},
